@@ -15,6 +15,7 @@ CONSTANTS
   AllowRelax = @RELAX@
   Prompt = @PROMPT@
   History = @HISTORY@
+  OwnBucket = @OWNBUCKET@
 SYMMETRY Symm
 INVARIANTS @INVS@
 CHECK_DEADLOCK FALSE
